@@ -16,23 +16,43 @@ open Mxl.C04
 /-! ## The facts of the current source the proofs rest on -/
 
 /-- `simulate_protocol_time_course` refuses with `time_points[-1] <= t_start` and selects `(t_start, t_end]`
-    (`>` and `<=`); defaults: 10 time points per step, absolute time points -/
+    (`>` and `<=`); defaults: 10 time points per step, absolute time points; a row is applied with its NaN cells
+    (parameters the step does not name) skipped -/
 theorem C14_source_facts :
     Gen.protocolTCRefusal = .le ∧ Gen.selectLo = .gt ∧ Gen.selectHi = .le ∧
-    Gen.defaultTimePointsPerStep = 10 ∧ Gen.defaultRelative = false := by decide
+    Gen.defaultTimePointsPerStep = 10 ∧ Gen.defaultRelative = false ∧
+    Gen.protocolSkipsUnnamed = true ∧ Gen.protocolTCSkipsUnnamed = true := by decide
 
 /-! ## `make_protocol`: cumulative sums -/
 
-/-- for a well-formed list of steps `make_protocol` is the table of cumulative end times
-    `d₁, d₁+d₂, …` with each step's own parameter values: no row is lost, merged or reordered -/
+/-- for positive durations `make_protocol` is the table of cumulative end times `d₁, d₁+d₂, …`; row `i` holds
+    step `i`'s values (`normSteps`: listed in the table's column order): no row is lost, merged or reordered,
+    whatever parameters the steps name and in whatever order -/
 theorem C14_make_protocol_cumsum (steps : List PStep) (hwf : wfSteps steps = true) :
-    makeProtocol steps = cumRows 0 steps ∧
+    makeProtocol steps = cumRows 0 (normSteps steps) ∧
     ((makeProtocol steps).map (·.1)).Pairwise (· < ·) ∧
-    (makeProtocol steps).map (·.2) = steps.map (·.2) := by
-  have hpos : steps.all (fun s => decide (0 < s.1)) = true := by
-    simp only [wfSteps, Bool.and_eq_true] at hwf; exact hwf.1
+    (makeProtocol steps).map (·.2) = (normSteps steps).map (·.2) ∧
+    (normSteps steps).map (·.1) = steps.map (·.1) := by
   rw [makeProtocol_wf steps hwf]
-  exact ⟨rfl, cumRows_pairwise 0 steps hpos, cumRows_pars 0 steps⟩
+  exact ⟨rfl, cumRows_pairwise 0 _ (normSteps_pos steps hwf), cumRows_pars 0 _, by simp [normSteps]⟩
+
+/-- what a row of the table gives to a parameter: the value the step gives it if the step names it, nothing
+    otherwise (the NaN cell of a parameter the step does not name is skipped when the row is applied) — so a
+    step only changes the parameters it names, and the order in which it lists them is immaterial -/
+theorem C14_row_values (cols : List Name) (p : Upd) (k : Name) :
+    (rowDict cols p).lookup k = if cols.contains k then p.lookup k else none :=
+  rowDict_lookup cols p k
+
+/-- every parameter a step names is a column of the table (so by `C14_row_values` its row carries the value) -/
+theorem C14_columns_complete (steps : List PStep) (s : PStep) (hs : s ∈ steps) (k : Name)
+    (hk : k ∈ s.2.map (·.1)) : (columns [] (steps.map (·.2))).contains k = true :=
+  columns_complete steps s hs k hk
+
+/-- the documented form (every step names the same distinct parameters in the same order): each row is the
+    step's own dict -/
+theorem C14_rows_of_uniform_steps (steps : List PStep) (hwf : wfSteps steps = true) (huni : uniform steps = true) :
+    makeProtocol steps = cumRows 0 steps := by
+  rw [makeProtocol_wf steps hwf, normSteps_uniform steps huni]
 
 /-- without positivity the dict-keyed table merges steps: a zero-duration step overwrites the
     values of the step before it (`k = 2` governs `(0, 1]`) -/
@@ -44,25 +64,26 @@ theorem C14_make_protocol_zero_duration_merges :
 
 /-- `simulate_protocol` on a live simulator that has reached `T`: exactly the calls
     `update_parameters(p₁); simulate(T+d₁); update_parameters(p₂); simulate(T+d₁+d₂); …`, stopped at
-    the first one that raises -/
+    the first one that raises (`pᵢ` = step `i`'s values as its table row lists them) -/
 theorem C14_protocol_is_fold {σ} (S : Sys σ) (s : Sim σ) (steps : List PStep) (n : Nat) (T : Rat)
     (hwf : wfSteps steps = true) (he : s.errors = 0) (hT : reached? s.segs = .ok T) :
-    stepP S s (.protocol steps n) = runStop S s (expandProtocol T n steps) :=
+    stepP S s (.protocol steps n) = runStop S s (expandProtocol T n (normSteps steps)) :=
   simulateProtocol_eq S s steps n T hwf he hT
 
-/-- `simulate_protocol_time_course`: after the two argument checks, exactly the calls
+/-- `simulate_protocol_time_course`: after the argument checks (an empty protocol cannot be shifted: TypeError;
+    no requested point: IndexError; last requested point not later than `T`: ValueError), exactly the calls
     `update_parameters(pᵢ); simulate_time_course(requested ∩ (Tᵢ₋₁, Tᵢ] ∪ {Tᵢ})` in turn (relative
     points are first shifted by `T`) -/
 theorem C14_protocol_tc_is_fold {σ} (S : Sys σ) (s : Sim σ) (steps : List PStep) (pts : List Rat)
     (rel : Bool) (T : Rat) (hwf : wfSteps steps = true) (he : s.errors = 0)
     (hT : reached? s.segs = .ok T) :
     stepP S s (.protocolTC steps pts rel) =
-      (match (if rel then pts.map (· + T) else pts).getLast? with
+      (if steps.isEmpty then (s, some .typeError) else
+       match (if rel then pts.map (· + T) else pts).getLast? with
        | none => (s, some .indexError)
        | some last =>
          if last ≤ T then (s, some .valueError) else
-         if steps.isEmpty then (s, some .indexError) else
-         runStop S s (expandProtocolTC (if rel then pts.map (· + T) else pts) T steps)) :=
+         runStop S s (expandProtocolTC (if rel then pts.map (· + T) else pts) T (normSteps steps))) :=
   simulateProtocolTC_eq S s steps pts rel T hwf he hT
 
 /-- in the fold, step `i`'s values are applied immediately before the stretch that ends at its
@@ -184,6 +205,10 @@ theorem C14_steady_witness_repaired :
 example : [OpP.basic (.simulate 2 (some 1)), .basic (.updVars [("x", 1)]), .basic (.steady (some 0)),
      .protocolTC [(1, [("k", 1)]), (2, [("k", 2)])] [1/2, 5/2, 3, 9/2] true,
      .protocol [(1/2, [("k", 2), ("u", 0)]), (1/2, [("k", 1), ("u", 1)])] 4].all wfOp = true := by decide +kernel
+
+/-- steps naming different parameters, in different orders: the rows carry exactly the named values -/
+example : makeProtocol [(1, [("k", 1)]), (2, [("u", 3)]), (1, [("u", 1), ("k", 2)])]
+    = [(1, [("k", 1)]), (3, [("u", 3)]), (4, [("k", 2), ("u", 1)])] := by decide +kernel
 
 /-- and on it the model records the axis 0,2 | 5/2,3 | 9/2,5 | … with the steps' parameters -/
 example : times (runP termSys (Sim.init [("k", 1/2)] STerm.init)
